@@ -50,6 +50,7 @@ type FuncContract struct {
 	SafetyProps []string
 	Requires    []*Clause
 	Ensures     []*Clause
+	Claims      []*Clause // checked like ensures, never assumed at call sites (clauses with known findings)
 	Assumes     []*Clause
 	Loops       map[int][]*Clause
 	Modifies    []string
@@ -239,7 +240,7 @@ func loadContracts(dir string) (*Contracts, error) {
 					n, r := splitWord(rest)
 					r = strings.TrimSpace(strings.TrimPrefix(strings.TrimSpace(r), "="))
 					cur.Vars[n] = r
-				case "requires", "ensures", "assume":
+				case "requires", "ensures", "assume", "claims":
 					c := &Clause{Kind: word, File: filepath.Base(fn), Line: i + 1}
 					r := strings.TrimSpace(rest)
 					if m := tagRe.FindStringSubmatch(r); m != nil {
@@ -252,6 +253,8 @@ func loadContracts(dir string) (*Contracts, error) {
 						cur.Requires = append(cur.Requires, c)
 					case "ensures":
 						cur.Ensures = append(cur.Ensures, c)
+					case "claims":
+						cur.Claims = append(cur.Claims, c)
 					default:
 						cur.Assumes = append(cur.Assumes, c)
 					}
@@ -279,6 +282,7 @@ func loadContracts(dir string) (*Contracts, error) {
 	// parse expressions
 	for _, fc := range cs.Funcs {
 		all := append(append(append([]*Clause{}, fc.Requires...), fc.Ensures...), fc.Assumes...)
+		all = append(all, fc.Claims...)
 		for _, l := range fc.Loops {
 			all = append(all, l...)
 		}
